@@ -42,21 +42,24 @@ def build_model():
 # ------------------------------------------------------------------------------------------------
 
 def shape_of(src):
-    """features of a database text that identify the known unsupported / mistranslated shapes"""
+    """features of a database text that identify the catalogued unsupported / mistranslated shapes, most
+    specific cause first"""
     feats = []
     body = re.sub(r'\$\(.*?\$\)', ' ', src, flags=re.S)
-    quoted_pat = set(re.findall(r'\$a\s+#Pattern\s+("\S+")\s+\$\.', body))
-    quoted_not = set(re.findall(r'\$a\s+#Notation\s+("\S+")\s', body))
-    if quoted_pat & quoted_not:
-        feats.append('quoted-constant-with-notation')
     for m in re.finditer(r'\$=\s*(\S+)', body):
-        if m.group(1) not in ('(',):
+        if m.group(1) != '(':
             feats.append('normal-format-proof')
             break
+    if re.search(r'\$a\s+#Notation\s[^$]*\(\s*\\mu\s', body):
+        feats.append('mu-in-notation')
     if re.search(r'\$f\s+#(ElementVariable|SetVariable|Variable|Symbol)', body):
         feats.append('non-pattern-floats')
     if '$d' in body.split():
         feats.append('disjoint-statement')
+    quoted_pat = set(re.findall(r'\$a\s+#Pattern\s+("\S+")\s+\$\.', body))
+    quoted_not = set(re.findall(r'\$a\s+#Notation\s+("\S+")\s', body))
+    if quoted_pat & quoted_not:
+        feats.append('quoted-constant-with-notation')
     return feats
 
 
@@ -185,6 +188,71 @@ def run_impl(cases):
     return res
 
 
+def hexpat(p):
+    """prefix codec of harness.rs / mm16_driver.ml"""
+    t = p[0]
+    if t in ('evar', 'svar', 'sym'):
+        return '%02x%02x' % ({'evar': 0, 'svar': 1, 'sym': 2}[t], p[1])
+    if t in ('imp', 'app'):
+        return ('03' if t == 'imp' else '04') + hexpat(p[1]) + hexpat(p[2])
+    if t in ('ex', 'mu'):
+        return ('05' if t == 'ex' else '06') + '%02x' % p[1] + hexpat(p[2])
+    if t == 'mvar':
+        return '07%02x' % p[1] + ''.join('%02x' % len(l) + ''.join('%02x' % x for x in l) for l in p[2])
+    raise ValueError(t)
+
+
+def decode_phase(hexs, memory, gamma):
+    """independent decoder of a Gamma/Claim phase file: returns the list of published patterns (hex, same
+    codec as the Rust dump) and the memory after the phase; None if the bytes are not a pattern script"""
+    b = bytes.fromhex('' if hexs == '-' else hexs)
+    i, stack, pub = 0, [], []
+    memory = list(memory)
+    try:
+        while i < len(b):
+            op = b[i]
+            i += 1
+            if op in (2, 3, 4):
+                stack.append(({2: 'evar', 3: 'svar', 4: 'sym'}[op], b[i]))
+                i += 1
+            elif op in (5, 6):
+                r = stack.pop()
+                l = stack.pop()
+                stack.append(('imp' if op == 5 else 'app', l, r))
+            elif op in (7, 8):
+                q = stack.pop()
+                stack.append(('mu' if op == 7 else 'ex', b[i], q))
+                i += 1
+            elif op == 137:
+                stack.append(('mvar', b[i], [[], [], [], [], []]))
+                i += 1
+            elif op == 9:
+                mid = b[i]
+                i += 1
+                ls = []
+                for _ in range(5):
+                    n = b[i]
+                    ls.append(list(b[i + 1:i + 1 + n]))
+                    i += 1 + n
+                stack.append(('mvar', mid, ls))
+            elif op == 27:
+                stack.pop()
+            elif op == 28:
+                memory.append(stack[-1])
+            elif op == 29:
+                stack.append(memory[b[i]])
+                i += 1
+            elif op == 30:
+                pub.append(stack.pop())
+                if gamma:
+                    memory.append(pub[-1])     # Publish in the Gamma phase also stores the axiom
+            else:
+                return None, memory
+    except (IndexError, KeyError):
+        return None, memory
+    return [hexpat(p) for p in pub], memory
+
+
 def rust_fields(line):
     """'ACCEPT S[..] M[..] C[..]' / 'OK S[..] M[..] C[..]' -> (verdict, stack, memory, claims) lists"""
     if not line or not (line.startswith('ACCEPT') or line.startswith('OK')):
@@ -228,8 +296,15 @@ def evaluate(R, cases, mlref, rsref, tier):
     rout = C.run_lines_parallel(rsref, rreq) if rreq else []
     for k, (i, mode) in enumerate(rmap):
         v, eg, ec = (rout[3 * k:3 * k + 3] + [''] * 3)[:3]
-        cases[i]['rust_' + mode] = dict(verdict=rust_fields(v)[0], axioms=[x[1:] for x in rust_fields(eg)[2] if x.startswith('T')],
-                                        claims=rust_fields(ec)[3])
+        g, cl, p = cases[i]['impl'][mode]
+        axs, mem = decode_phase(g, [], True)
+        cls, _ = decode_phase(cl, mem, False)
+        d = dict(verdict=rust_fields(v)[0], axioms=axs, claims=list(reversed(cls)) if cls is not None else None)
+        if mode == 'plain':
+            # the Rust dump of the two phases must agree with the independent decoder on the unoptimised files
+            d['rust_axioms'] = [x[1:] for x in rust_fields(eg)[2] if x.startswith('T')]
+            d['rust_claims'] = rust_fields(ec)[3]
+        cases[i]['rust_' + mode] = d
 
     mismatches, failures = [], []
     for c in cases:
@@ -270,11 +345,11 @@ def evaluate(R, cases, mlref, rsref, tier):
                 R.hist['uses:' + u] = R.hist.get('uses:' + u, 0) + 1
         if not valid:
             continue
-        where = 'in-fragment' if frag else ('+'.join(feats) if feats else ('outside-model' if not in_model else 'outside-fragment'))
+        where = 'in-fragment' if frag else (feats[0] if feats else ('outside-model' if not in_model else 'outside-fragment'))
         if not o.get('ok'):
             exc = o.get('exc', '?')
             if exc.startswith('NotImplementedError') and not frag:
-                R.hist['declared-unsupported:' + where] = R.hist.get('declared-unsupported:' + where, 0) + 1
+                R.hist['declared-unsupported:' + '+'.join(feats or [where])] = R.hist.get('declared-unsupported:' + '+'.join(feats or [where]), 0) + 1
                 if 'normal-format-proof' not in feats:
                     continue
             if not frag and not feats and c['kind'] in ('generated', 'mutant'):
@@ -288,10 +363,12 @@ def evaluate(R, cases, mlref, rsref, tier):
         for mode in ('plain', 'opt'):
             r = c['rust_' + mode]
             if r['verdict'] != 'ACCEPT':
-                failures.append((f'rust-rejects:{mode}:{where}', c, f'valid proof translated, Rust checker REJECTS the {mode} files'))
+                failures.append((f'rust-rejects:{where}', c, f'valid proof translated, Rust checker REJECTS the {mode} files'))
                 continue
-            if len(r['claims']) != 1 and frag:
-                failures.append((f'claims-count:{mode}:{where}', c, f'{len(r["claims"])} claims published'))
+            if mode == 'plain' and frag and (r['rust_axioms'] != r['axioms'] or r['rust_claims'] != r['claims']):
+                failures.append((f'decoder-disagrees-with-rust:{where}', c, f'{r["rust_axioms"]} {r["rust_claims"]} vs {r["axioms"]} {r["claims"]}'))
+            if (r['claims'] is None or len(r['claims']) != 1) and frag:
+                failures.append((f'claims-count:{mode}:{where}', c, f'{r["claims"]} claims published'))
             if m_ok and frag:
                 cl = c['m_x'].split(' CL ')[1].split(' AX ')[0].strip()
                 ax = [x for x in c['m_x'].split(' AX ')[1].split(' ACCEPT')[0].split(' REJECT')[0].strip().split(',') if x]
